@@ -76,6 +76,13 @@ def adjacency():
     return _cache['adj']
 
 
+def before_line_end():
+    """terminals that can directly precede a significant line end (the NL of
+    short-if and `?`): the tokens that can end a statement."""
+    adjacency()
+    return {a for (a, b) in _cache['all']['adj'] if b == G.NL and a != G.NL}
+
+
 def enumerate_adjacent(depth=4, limit=200000):
     """Independent derivation of adjacent pairs by bounded sentence
     enumeration of the reference grammar (cross-check for `thorough`)."""
